@@ -29,6 +29,13 @@ def name : MachTy → String
   | bool => "BOOL" | u8 => "U8" | s8 => "S8" | u16 => "U16" | s16 => "S16" | u32 => "U32" | s32 => "S32"
   | f32 => "F32" | u64 => "U64" | s64 => "S64" | f64 => "F64"
 
+/-- `CppScalar.format()` -/
+def cpp : MachTy → String
+  | bool => "bool" | u8 => "uint8_t" | s8 => "int8_t" | u16 => "uint16_t" | s16 => "int16_t" | u32 => "uint32_t"
+  | s32 => "int32_t" | f32 => "float" | u64 => "uint64_t" | s64 => "int64_t" | f64 => "double"
+
+def isUnsigned : MachTy → Bool | u8 | u16 | u32 | u64 => true | _ => false
+
 def isFloat : MachTy → Bool | f32 | f64 => true | _ => false
 def isInteger : MachTy → Bool | bool | f32 | f64 => false | _ => true
 
@@ -209,10 +216,18 @@ structure Sig where
   outCtx : NativeCtx
 deriving DecidableEq, Repr
 
+/-- same-context signatures, one per context, every slot at `_ty_of(ctx)`; the C++ spelling may depend
+on that type -/
+def sameSigsBy (arity : Nat) (nm : MachTy → String) (cs : List NativeCtx) : List Sig :=
+  cs.filterMap fun c => c.ty.map fun t => { name := nm t, inTys := List.replicate arity t, outCtx := c }
+
 /-- same-context signatures (`_fp_unary`, `_fp_binary`, `_fp_ternary`, and the comprehensions of
-`_make_unary_table` / `_make_binary_table`): one per context, every slot at `_ty_of(ctx)` -/
-def sameSigs (arity : Nat) (nm : String) (cs : List NativeCtx) : List Sig :=
-  cs.filterMap fun c => c.ty.map fun t => { name := nm, inTys := List.replicate arity t, outCtx := c }
+`_make_unary_table` / `_make_binary_table`): one spelling for every context -/
+def sameSigs (arity : Nat) (nm : String) (cs : List NativeCtx) : List Sig := sameSigsBy arity (fun _ => nm) cs
+
+/-- `_int_abs`: `std::abs` for a signed type; an unsigned type has no `std::abs` overload (the call is
+ambiguous for `uint32_t`/`uint64_t`) and is its own absolute value: the identity conversion -/
+def intAbsName (t : MachTy) : String := if t.isUnsigned then "static_cast<" ++ t.cpp ++ ">" else "std::abs"
 
 /-- the signatures `make_op_table()` lists for a node -/
 def sigs (nd : Node) : List Sig :=
@@ -220,7 +235,7 @@ def sigs (nd : Node) : List Sig :=
   | .add => sameSigs nd.arity "+" allCtxs | .sub => sameSigs nd.arity "-" allCtxs
   | .mul => sameSigs nd.arity "*" allCtxs | .div => sameSigs nd.arity "/" allCtxs
   | .neg => sameSigs nd.arity "-" allCtxs
-  | .abs => sameSigs nd.arity "std::fabs" fpCtxs ++ sameSigs nd.arity "std::abs" intCtxs
+  | .abs => sameSigs nd.arity "std::fabs" fpCtxs ++ sameSigsBy nd.arity intAbsName intCtxs
   | .sqrt => sameSigs nd.arity "std::sqrt" fpCtxs
   | .fma => sameSigs nd.arity "std::fma" fpCtxs
 
